@@ -6,6 +6,8 @@ import (
 	"encoding/json"
 	"errors"
 	"fmt"
+	"io"
+	"math"
 
 	"go.sia.tech/core/types"
 )
@@ -305,8 +307,15 @@ func (r *RPCExecuteProgramResponse) DecodeFrom(d *types.Decoder) {
 	}
 	(*types.V1Currency)(&r.TotalCost).DecodeFrom(d)
 	(*types.V1Currency)(&r.FailureRefund).DecodeFrom(d)
-	r.Output = make([]byte, r.OutputLength)
-	d.Read(r.Output)
+	var out bytes.Buffer
+	if r.OutputLength > math.MaxInt64 {
+		d.SetErr(errors.New("output length overflows"))
+		return
+	} else if _, err := io.CopyN(&out, d, int64(r.OutputLength)); err != nil {
+		d.SetErr(err)
+		return
+	}
+	r.Output = out.Bytes()
 }
 
 // EncodeTo implements ProtocolObject.
